@@ -333,6 +333,7 @@ def fold_new_helpers(P):
         still = any(s.ev.get('callee') == h.name and P.direct_target(s.fn, h.name) is h for g in P.fns.values() if g is not h for s in g.calls())
         addr = any(h.key in ks for ks in P.slots().values())
         if not still and not addr:
+            P.__dict__.setdefault('folded_fns', {}).setdefault(h.name, []).append(h)
             P.fns.pop(h.key, None)
             P.by_name[h.name] = [x for x in P.by_name[h.name] if x is not h]
             folded.append(h.name)
